@@ -3,13 +3,14 @@
 # Re-checks every kept seeded change against the CURRENT contracts without touching /repo: a scratch worktree of
 # /repo's HEAD (contract files included) gets each patch in turn and the property's quick check runs there
 # (GOWP_REPO: no evidence is written, the contract lock is not consulted). One line per seed:
+# (SEEDROOT=/tmp/seedstore checks seeds that are not kept yet; failed obligations go to /tmp/det/<seed>.txt)
 # caught (n) / MISSED / ERROR (engine exit 2) / does-not-apply. Removes the worktree afterwards.
 cd /verif && . ./env.sh
 wt=/tmp/regress_wt_$$
 git -C /repo worktree add --detach -q $wt HEAD || exit 2
 trap 'git -C /repo worktree remove --force '$wt EXIT
 export GOWP_REPO=$wt GOWP_OUT=/tmp/regress_out_$$ GOWP_NOLOCK=1
-for d in /verif/seeded/${1:-C*}; do
+for d in ${SEEDROOT:-/verif/seeded}/${1:-C*}; do
   [ -f $d/patch.diff ] || continue
   s=$(basename $d); p=${s%%-*}
   if ! git -C $wt apply $d/patch.diff 2>/dev/null; then
@@ -18,7 +19,8 @@ for d in /verif/seeded/${1:-C*}; do
   fi
   out=$(bin/gowp check --property $p --tier quick 2>&1); code=$?
   n=$(echo "$out" | grep -c '^VIOLATION')
-  if [ "$n" -gt 0 ]; then echo "$s caught ($n)"; elif [ $code -ne 0 ]; then echo "$s ERROR exit=$code $(echo "$out" | grep 'gowp:\|ENGINE' | head -1 | cut -c1-160)"; else echo "$s MISSED"; fi
+  mkdir -p /tmp/det; echo "$out" | grep '^VIOLATION' | sed -E 's|.*replay=[^ ]*/([^/ ]+)\.json.*|\1|' | sed -E 's/^__//' > /tmp/det/$s.txt
+  if [ "$n" -gt 0 ]; then echo "$s caught ($n) $(head -2 /tmp/det/$s.txt | tr '\n' ' ' | cut -c1-200)"; elif [ $code -ne 0 ]; then echo "$s ERROR exit=$code $(echo "$out" | grep 'gowp:\|ENGINE' | head -1 | cut -c1-160)"; else echo "$s MISSED"; fi
   git -C $wt reset -q --hard
 done
 rm -rf /tmp/regress_out_$$
